@@ -189,6 +189,7 @@ class Engine:
         self.lists = {}
         self.next_loc = 0
         self.heap = {}
+        self.heap_init = {}
         self.heap0 = None
         self.alloc = None
         self.fresh_ctr = 0
@@ -205,6 +206,7 @@ class Engine:
     # ---------------------------------------------------------------- basic services
     def fresh_name(self, base):
         self.fresh_ctr += 1
+        base = "".join(ch if (ch.isalnum() or ch in "_.$#") else "~" for ch in str(base))  # SMT-LIB simple symbol
         return "%s!%d" % (base, self.fresh_ctr)
 
     def assume(self, t):
@@ -341,6 +343,8 @@ class Engine:
             return None
         if isinstance(v, VStr):
             return v.s
+        if isinstance(v, VStrSym):
+            return {"str_id": ev(v.t).as_long()}
         if isinstance(v, VTuple):
             d = [self.concretise(x, model) for x in v.items]
             if v.cls is not None:
@@ -348,7 +352,7 @@ class Engine:
             return {"tuple": d}
         if isinstance(v, VEnum):
             idx = ev(v.t).as_long()
-            members = list(v.cls)
+            members = enum_members(v.cls)
             return {"enum": v.cls.__name__, "member": members[idx % len(members)].name}
         if isinstance(v, VOpt):
             if z3.is_true(ev(v.is_none)):
@@ -387,6 +391,10 @@ class Engine:
             if T_.hi is not None:
                 self.assume(t <= T_.hi)
             return VInt(t, T_.np)
+        if isinstance(T_, TStr):
+            t = z3.Int(self.fresh_name(name))
+            self.assume(t >= 0)
+            return VStrSym(t)
         if isinstance(T_, TBool):
             return VBool(z3.Bool(self.fresh_name(name)))
         if isinstance(T_, TFloat):
@@ -401,7 +409,7 @@ class Engine:
             )
         if isinstance(T_, TEnum):
             t = z3.Int(self.fresh_name(name))
-            members = list(T_.cls)
+            members = enum_members(T_.cls)
             if T_.members is not None:
                 idxs = [members.index(m) for m in T_.members]
                 self.assume(z3.Or([t == i for i in idxs]))
@@ -452,7 +460,7 @@ class Engine:
             return [("b", z3.BoolSort())]
         if isinstance(T_, TFloat):
             return [("f", fsort(T_.kind))]
-        if isinstance(T_, (TEnum, TObj)):
+        if isinstance(T_, (TEnum, TObj, TStr)):
             return [("e", z3.IntSort())]
         if isinstance(T_, TTuple):
             out = []
@@ -489,6 +497,12 @@ class Engine:
         if isinstance(T_, TObj):
             if not isinstance(v, VObj):
                 raise Unsupported("expected obj leaf, got %r" % (v,))
+            return [v.t]
+        if isinstance(T_, TStr):
+            if isinstance(v, VStr):
+                return [z3.IntVal(intern_str(v.s))]
+            if not isinstance(v, VStrSym):
+                raise Unsupported("expected str leaf, got %r" % (v,))
             return [v.t]
         if isinstance(T_, TTuple):
             v = self.force(v)
@@ -546,13 +560,15 @@ class Engine:
         if isinstance(T_, TEnum):
             t = leaves.pop(0)
             if wf:
-                self.assume(z3.And(t >= 0, t < len(list(T_.cls))))
+                self.assume(z3.And(t >= 0, t < len(enum_members(T_.cls))))
             return VEnum(T_.cls, t), leaves
         if isinstance(T_, TObj):
             t = leaves.pop(0)
             if wf:
                 self.assume(z3.And(t >= 1, t < self.alloc_term()))
             return VObj(T_.cls, t), leaves
+        if isinstance(T_, TStr):
+            return VStrSym(leaves.pop(0)), leaves
         if isinstance(T_, TTuple):
             items = []
             for it in T_.items:
@@ -583,6 +599,8 @@ class Engine:
             return TEnum(v.cls)
         if isinstance(v, VObj):
             return TObj(v.cls)
+        if isinstance(v, (VStr, VStrSym)):
+            return TStr()
         if isinstance(v, VTuple):
             return TTuple(*[self.type_of(x) for x in v.items], cls=v.cls)
         if isinstance(v, VOpt):
@@ -636,7 +654,7 @@ class Engine:
                 hi = T_.hi if hi is None else min(hi, T_.hi)
             return [(lo, hi)]
         if isinstance(T_, TEnum):
-            return [(0, len(list(T_.cls)) - 1)]
+            return [(0, len(enum_members(T_.cls)) - 1)]
         if isinstance(T_, (TBool, TFloat)):
             return [None]
         if isinstance(T_, TObj):
@@ -872,8 +890,14 @@ class Engine:
         return ft
 
     def heap_arr(self, key, sort):
+        """Current array of a heap leaf. Arrays are created lazily; the initial (entry-state) array of a leaf is unique
+        per path, so that old(...) and the code agree on it no matter which of them touches the leaf first."""
         if key not in self.heap:
-            self.heap[key] = z3.Array(self.fresh_name("H." + key), z3.IntSort(), sort)
+            init = self.heap_init.get(key)
+            if init is None:
+                init = z3.Array(self.fresh_name("H." + key), z3.IntSort(), sort)
+                self.heap_init[key] = init
+            self.heap[key] = init
         return self.heap[key]
 
     def heap_read(self, obj, field):
@@ -915,7 +939,7 @@ class Engine:
         if isinstance(obj, bool):
             return VBool(obj)
         if isinstance(obj, enum.Enum):
-            return VEnum(type(obj), list(type(obj)).index(obj))
+            return VEnum(type(obj), enum_members(type(obj)).index(obj))
         if isinstance(obj, np.bool_):
             return VBool(bool(obj))
         if isinstance(obj, np.integer):
@@ -961,7 +985,7 @@ class Engine:
             c = conc_int(v.t)
             if c is None:
                 raise ValueError
-            return list(v.cls)[c]
+            return enum_members(v.cls)[c]
         if isinstance(v, VTuple):
             items = [self.lower(x) for x in v.items]
             return v.cls(*items) if v.cls else tuple(items)
@@ -1002,6 +1026,8 @@ class Engine:
             return z3.BoolVal(len(v.items) > 0)
         if isinstance(v, VStr):
             return z3.BoolVal(len(v.s) > 0)
+        if isinstance(v, VStrSym):
+            raise Unsupported("truthiness of a symbolic string")
         if isinstance(v, (VObj, VStruct, VNative, VEnum)):
             if isinstance(v, VEnum) and issubclass(v.cls, int):
                 return self.enum_value(v).t != 0
@@ -1009,7 +1035,7 @@ class Engine:
         raise Unsupported("truthiness of %r" % (v,))
 
     def enum_value(self, v):
-        members = list(v.cls)
+        members = enum_members(v.cls)
         c = conc_int(v.t)
         if c is not None:
             return self.lift(members[c].value)
@@ -1536,6 +1562,16 @@ class Engine:
         if isinstance(a, VTuple) and isinstance(b, VTuple) and len(a.items) == len(b.items):
             # lexicographic
             return VBool(self.lex_cmp(op, a.items, b.items))
+        if isinstance(a, VObj) and isinstance(b, VObj) and isinstance(a.cls, type) and hasattr(a.cls, "__lt__") and a.cls is b.cls:
+            # user-defined ordering (__lt__): an uninterpreted irreflexive relation on references; only its
+            # existence matters for the properties proved (sortedness by the leading tuple components)
+            name = "lt$" + a.cls.__name__
+            f = self.memo.get(name)
+            if f is None:
+                f = z3.Function(name, z3.IntSort(), z3.IntSort(), z3.BoolSort())
+                self.memo[name] = f
+            lt = {"<": f(a.t, b.t), ">": f(b.t, a.t), "<=": z3.Not(f(b.t, a.t)), ">=": z3.Not(f(a.t, b.t))}[op]
+            return VBool(lt)
         raise Unsupported("compare %s on %r, %r" % (op, a, b))
 
     def to_float_cmp(self, v):
@@ -1598,6 +1634,10 @@ class Engine:
             return z3.BoolVal(False)  # plain Enum never equals a non-member
         if isinstance(a, VStr) and isinstance(b, VStr):
             return z3.BoolVal(a.s == b.s)
+        if isinstance(a, (VStr, VStrSym)) and isinstance(b, (VStr, VStrSym)):
+            ta = a.t if isinstance(a, VStrSym) else z3.IntVal(intern_str(a.s))
+            tb = b.t if isinstance(b, VStrSym) else z3.IntVal(intern_str(b.s))
+            return ta == tb
         if isinstance(a, VTuple) and isinstance(b, VTuple):
             if len(a.items) != len(b.items):
                 return z3.BoolVal(False)
@@ -1652,7 +1692,7 @@ class Engine:
             except ValueError:
                 # symbolic enum member in a native tuple/set of members
                 if isinstance(item, VEnum) and isinstance(container.obj, (tuple, set, frozenset, list)):
-                    members = list(item.cls)
+                    members = enum_members(item.cls)
                     idxs = [members.index(m) for m in container.obj if isinstance(m, item.cls)]
                     return z3.Or([item.t == i for i in idxs] + [z3.BoolVal(False)])
                 raise Unsupported("symbolic key in native container")
@@ -1722,6 +1762,10 @@ class Engine:
             return VFloat(z3.If(c, x.t, y.t), f.kind, f.isnp)
         if isinstance(a, VBool) and isinstance(b, VBool):
             return VBool(z3.If(c, a.t, b.t))
+        if isinstance(a, (VStr, VStrSym)) and isinstance(b, (VStr, VStrSym)):
+            ta = a.t if isinstance(a, VStrSym) else z3.IntVal(intern_str(a.s))
+            tb = b.t if isinstance(b, VStrSym) else z3.IntVal(intern_str(b.s))
+            return VStrSym(z3.If(c, ta, tb))
         if isinstance(a, VEnum) and isinstance(b, VEnum) and a.cls is b.cls:
             return VEnum(a.cls, z3.If(c, a.t, b.t))
         ia, ib = self.as_int(a), self.as_int(b)
